@@ -1360,6 +1360,10 @@ package sftp
 //@   ensures 0 <= n && n <= len(p)
 //@   modifies bytes
 
+//@ ghost var hclosed int
+
+// (ghost.hclosed counts Close calls on handler-provided objects; only the close paths may change it)
+
 //@ func (io.WriterAt).WriteAt
 //@   trusted
 //@   results n, err
@@ -1438,7 +1442,8 @@ package sftp
 //@   update after call (*Request).close$1#1: ghost.ctxDone = true
 //@   ensures ghost.ctxDone
 //@   assume-frame
-//@   modifies r.listerAt, r.writerAtReaderAt
+//@   modifies r.listerAt, r.writerAtReaderAt, ghost.hclosed
+//@   update after call (io.Closer).Close#*: ghost.hclosed = ghost.hclosed + 1
 // (frame assumed: Close / cancel functions of handler-provided objects do not touch the server's handle table)
 
 //@ func (*Request).transferError
@@ -1483,6 +1488,9 @@ package sftp
 //@   ensures typeis(p, *sshFxpReadPacket) ==> offset == int64(p.(*sshFxpReadPacket).Offset)
 
 //@ func fileget
+//@   ensures ghost.hclosed == old(ghost.hclosed)
+//@   assert before call (io.Closer).Close#*: false
+//@   property C14
 //@   update after call (io.ReaderAt).ReadAt#1: ghost.rdN = ret0
 //@   update after call (io.ReaderAt).ReadAt#1: ghost.rdEOF = ret1 == io.EOF
 //@   update before call (*state).getReaderAt#1: ghost.rdEOF = false
@@ -1496,6 +1504,9 @@ package sftp
 //@   ensures typeis(result, *sshFxpDataPacket) || typeis(result, *sshFxpStatusPacket)
 
 //@ func fileput
+//@   ensures ghost.hclosed == old(ghost.hclosed)
+//@   assert before call (io.Closer).Close#*: false
+//@   property C14
 //@   property C07, C02, C01
 //@   assert before call (io.WriterAt).WriteAt#1: arg1 == data && arg2 == offset
 //@   requires r != nil && pkt != nil && (alloc == nil || alloc.used != nil) && rsReqType(pkt) && maxTxPacket <= 0x7fffffff
@@ -1503,6 +1514,9 @@ package sftp
 //@   ensures typeis(result, *sshFxpStatusPacket)
 
 //@ func fileputget
+//@   ensures ghost.hclosed == old(ghost.hclosed)
+//@   assert before call (io.Closer).Close#*: false
+//@   property C14
 //@   update after call (WriterAtReaderAt).ReadAt#1: ghost.rdN = ret0
 //@   update after call (WriterAtReaderAt).ReadAt#1: ghost.rdEOF = ret1 == io.EOF
 //@   update before call (*state).getWriterAtReaderAt#1: ghost.rdEOF = false
@@ -1517,12 +1531,18 @@ package sftp
 //@   ensures typeis(result, *sshFxpDataPacket) || typeis(result, *sshFxpStatusPacket)
 
 //@ func filecmd
+//@   ensures ghost.hclosed == old(ghost.hclosed)
+//@   assert before call (io.Closer).Close#*: false
+//@   property C14
 //@   property C07, C02, C10
 //@   requires h != nil && r != nil && pkt != nil && attrsOK(pkt) && rsReqType(pkt)
 //@   ensures result != nil && result.id() == pkt.id()
 //@   ensures typeis(result, *sshFxpStatusPacket) || typeis(result, *StatVFS)
 
 //@ func filelist
+//@   ensures ghost.hclosed == old(ghost.hclosed)
+//@   assert before call (io.Closer).Close#*: false
+//@   property C14
 //@   property C07, C02, C16
 //@   assert before call (ListerAt).ListAt#1: arg2 == offset && len(arg1) == int(MaxFilelist)
 //@   assert before call (*state).lsInc#1: arg1 == int64(n) && arg0 == &r.state
@@ -1533,6 +1553,9 @@ package sftp
 //@   ensures typeis(result, *sshFxpNamePacket) || typeis(result, *sshFxpStatusPacket)
 
 //@ func filestat
+//@   ensures ghost.hclosed == old(ghost.hclosed)
+//@   assert before call (io.Closer).Close#*: false
+//@   property C14
 //@   property C07, C02, C10
 //@   assert before call (LstatFileLister).Lstat#1: arg1 == r && r.Method == "Lstat"
 //@   assert before call (FileLister).Filelist#1: arg1 == r && r.Method == "Stat"
@@ -1555,6 +1578,9 @@ package sftp
 //@   ensures typeis(result, *sshFxpNamePacket)
 
 //@ func (*Request).call
+//@   ensures ghost.hclosed == old(ghost.hclosed)
+//@   assert before call (io.Closer).Close#*: false
+//@   property C14
 //@   assert before call fileget#1: arg3 == alloc && arg4 == orderID && arg5 == maxTxPacket
 //@   assert before call fileputget#1: arg3 == alloc && arg4 == orderID && arg5 == maxTxPacket
 //@   property C07, C02, C10, C18, C15
@@ -2091,7 +2117,8 @@ package sftp
 
 //@ func (*state).closeListerAt
 //@   property C07, C11, C16
-//@   modifies s.listerAt
+//@   modifies s.listerAt, ghost.hclosed
+//@   update after call (io.Closer).Close#*: ghost.hclosed = ghost.hclosed + 1
 //@   assume-frame
 //@   ensures s.listerAt == nil
 
